@@ -594,6 +594,11 @@ class Machine(object):
                     pn = pty[1] if isinstance(pty[1], int) else 32
                     on = obj.t[1] if isinstance(obj.t[1], int) else 32
                     if pn < on:
+                        prev = next((vc for vo, vc, _, _ in views if vo is obj and vc.t == pty), None)
+                        if prev is not None:
+                            # the same variable passed for two parameters: both names are the same storage
+                            bound[pname] = prev
+                            continue
                         c = Cell(pty, pname)
                         c.v = obj.v[:pn]
                         c.init = obj.init
